@@ -243,6 +243,11 @@ func (ex *Exec) callStatic(st *State, c *ssa.Call, callee *ssa.Function, args []
 	if ex.p.isOurPkg(callee.Pkg) || (callee.Parent() != nil && ex.p.isOurPkg(callee.Parent().Pkg)) {
 		return ex.callContract(st, c, callee, args)
 	}
+	if fc := ex.p.Contracts.Funcs[ex.p.contractName(callee)]; fc != nil && callee.Blocks != nil {
+		// a dependency function that is itself under contract (its body is verified against it)
+		ex.p.provedDeps[full] = true
+		return ex.callContract(st, c, callee, args)
+	}
 	h := deps[full]
 	if h == nil {
 		ex.failObl("dep", "uncontracted/"+full, "call to a dependency function without an assumed contract", ex.fnTags(), c)
@@ -334,7 +339,7 @@ func (ex *Exec) callContract(st *State, c *ssa.Call, callee *ssa.Function, args 
 	k := st.calls[name]
 	site := fmt.Sprintf("%s#%d@%s", name, k, ex.posOf(c))
 	pre := st.clone()
-	cenv := &calleeEnv{fc: fc, params: map[string]SV{}, lets: map[string]SV{}}
+	cenv := &calleeEnv{fc: fc, params: map[string]SV{}, lets: map[string]SV{}, fn: callee}
 	for i, p := range callee.Params {
 		if i < len(args) {
 			cenv.params[p.Name()] = args[i]
